@@ -83,7 +83,11 @@ impl OperationControl for Repeat {
     ) -> Box<dyn Iterator<Item = usize> + 'a> {
         let mut iterators: Vec<Box<dyn Iterator<Item = usize>>> = Vec::new();
         let mut positions = Vec::new();
-        let bound = self.max.min(matcher.search.len() - position + 1);
+        // (the required iterations may all be empty, so the limit derived from
+        // the remaining input must not cut into the minimum)
+        let bound = self
+            .max
+            .min((matcher.search.len() - position + 1).max(self.min));
         let mut p = position;
         if self.greedy {
             // Prime the arrays first with iterators up to the maximum length,
